@@ -639,7 +639,19 @@ def fixpoint_rule(ctx, rep, rid="FIX"):
                         for i, s in enumerate(b.blocks[blk]["s"]):
                             if "rv" in s and not s["a"]["p"] and s["a"]["l"] == f:
                                 e = pr.rvalue(s["rv"])
-                                ok = e[0] == "const" or (e[0] == "bin" and e[1] == "BitOr" and (e[2] == ("local", f, b.varname(f)) or e[3] == ("local", f, b.varname(f))))
+
+                                def ok_value(e_, blk_, depth=0):
+                                    if e_[0] == "const" or (e_[0] == "bin" and e_[1] == "BitOr" and (e_[2] == ("local", f, b.varname(f)) or e_[3] == ("local", f, b.varname(f)))):
+                                        return True
+                                    # `flag = flag || x` is lowered to a branch on the flag: `true` on its true edge, `x` on its false edge;
+                                    # overwriting a flag that is known to be false is an or-accumulation
+                                    if any(a == ("local", f, b.varname(f)) and tr is False for a, tr in gates(b, blk_)):
+                                        return True
+                                    if e_[0] == "local" and not b.varname(e_[1]) and depth < 2:
+                                        ds = [d for d in b.defs().get(e_[1], []) if d[2] == "assign"]
+                                        return bool(ds) and len(ds) == len(b.defs().get(e_[1], [])) and all(ok_value(pr.rvalue(d[3]["rv"]), d[0], depth + 1) for d in ds)
+                                    return False
+                                ok = ok_value(e, blk)
                                 if not ok:
                                     bad = ((blk, i), e)
                 if bad:
